@@ -506,6 +506,8 @@ class StmtMixin(object):
                     wset.add(('F', o.oid, node.attr))
                     havoc_list.append((o, node.attr))
         for p in spec.modifies_extra:
+            if p == 'kappa':
+                continue
             from .contracts import parse_expr
             node = parse_expr(p)
             if node.k == 'Attr':
@@ -565,7 +567,9 @@ class StmtMixin(object):
                 if ctf is not None and ctf[0] == 'int' and not ctf[1]:
                     self.assume_fact(tm.ge(nv, tm.mk_int(0)))
                 o.fields[attr] = nv
-        self.kappa = self.fresh('kappa@%s' % ordn, INT)
+        if 'kappa' in spec.modifies_extra:
+            wset.add(('K',))
+            self.kappa = self.fresh('kappa@%s' % ordn, INT)
         # 4. assume invariants (+ range)
         if is_for:
             i = fr.env[ivar]
